@@ -4,4 +4,5 @@ set -e
 here="$(cd "$(dirname "$0")" && pwd)"
 export CARGO_NET_OFFLINE=true
 (cd "$here/harness" && cargo build --release 2>&1 | grep -v conda | tail -3)
+"$here/tools/cli_env.sh"
 echo "setup done"
